@@ -156,3 +156,65 @@ def c06(prop, tier, t0):
         "the global default deadzone (sub-handler \"\" fallback) is unreachable through the parser (it always records a per-handler default) and is not enumerated",
         "an observable for which nothing was ever transmitted is not judged",
     ], t0)
+
+
+# ------------------------------------------------------------------ C09
+import re as _re
+import shutil as _shutil
+import subprocess as _sp
+
+
+def _norm(msg):
+    return _re.sub(r"[0-9]+", "N", msg)[:90]
+
+
+@check("C09")
+def c09(prop, tier, t0):
+    binary, bt = vlib.build("c09")
+    hook, _ = vlib.build("hidi", pkgpath="./cmd/hidi", out=os.path.join(vlib.BUILD, "bin", "hidi_hook"))
+    m = vlib.merge(sharded(binary, tier, vlib.NCPU, extra=["-repo", vlib.REPO]))
+    # hidi.toml through the real LoadHIDIConfig (package main of cmd/hidi, reached through the verif init hook)
+    d = tempfile.mkdtemp(prefix="c09_", dir=vlib.BUILD)
+    try:
+        files = os.path.join(d, "files")
+        os.makedirs(files)
+        vlib.run([binary, "-emit-hidi", files, "-repo", vlib.REPO])
+        names = open(os.path.join(d, "names.txt")).read().split("\n")
+        env = vlib.goenv()
+        env["HIDI_VERIF"] = "loadhidi:" + files
+        p = _sp.run([hook], env=env, capture_output=True, text=True, timeout=1800, cwd=d)
+        if p.returncode != 0:
+            raise vlib.Infra("hidi hook failed: %s %s" % (p.stdout[-2000:], p.stderr[-2000:]))
+        seen = 0
+        outcomes = set()
+        for line in p.stdout.splitlines():
+            parts = line.split("\t", 2)
+            if len(parts) < 2 or not parts[0].isdigit():
+                continue
+            seen += 1
+            idx = int(parts[0])
+            name = names[idx] if idx < len(names) else parts[0]
+            msg = parts[2] if len(parts) > 2 else ""
+            outcomes.add(parts[1] + ":" + _norm(msg) if parts[1] != "OK" else "OK:" + msg)
+            if parts[1] == "PANIC":
+                content = open(os.path.join(files, parts[0]), "rb").read().decode("latin1")
+                m["violations"].append({"class": "loadhidi-panics", "where": _norm(msg),
+                                        "what": "LoadHIDIConfig panicked on %s: %s" % (name, msg),
+                                        "detail": {"input_name": name, "content": content, "panic": msg}})
+        if seen != len(names):
+            raise vlib.Infra("hidi hook processed %d of %d inputs (it died?): %s" % (seen, len(names), p.stdout[-1500:] + p.stderr[-1500:]))
+    finally:
+        _shutil.rmtree(d, ignore_errors=True)
+    m["distinct_keys"].update(outcomes)
+    cov = generic_cov(m, "inputs: mutation closure of the 5 shipped device configurations and of a synthetic one using every analog type and optional field "
+                         "(per line: delete / duplicate / truncate-before; per key=value and per inline-table field: 22 ill-typed literals incl. dates, times, arrays, tables; "
+                         "dotted/quoted/unknown keys; every byte-prefix; all pairs of line deletions of the synthetic file), all token sequences of length <=4 (thorough 5) over a 16-token TOML alphabet, "
+                         "all byte strings of length <=2 and length 3-4 over 12 bytes -> config.ParseData under recover + 120 s watchdog; the same closure of hidi.toml + a 5-field presence/value matrix -> "
+                         "the real LoadHIDIConfig. distinct_nontrivial = distinct outcomes (accepted input / normalised error message / panic message).",
+                      {"hidi_toml_inputs": len(names), "build_s": round(bt, 1)})
+    cov["evaluations"] += len(names)
+    # collapse duplicates of one panic kind for reporting
+    return vlib.finish(prop, tier, "exploration", m, cov, [
+        "'all byte strings up to 64 KiB' cannot be enumerated: the bound is the shapes listed in 'rule', one per parsing path visible in the code",
+        "a hang is reported only after a single call stalls for 120 s",
+    ], t0)
